@@ -1,7 +1,7 @@
 (* C10 -- resolving packages and time conditions is exact bracketed substitution.
    expand / expand_tc model expand_packages / expand_time_conditions on the parse tree; time_condition_expansion is
    regenerated from TimeConditionTransformer. *)
-From Ahb Require Import Model.Prelude Model.Grammar Gen.Gen_grammar Model.Lex Gen.Gen_timecond Model.Resolve Proofs.C01_parse Proofs.C10_resolve Proofs.C01_lexprint Proofs.C01_print Proofs.C02_lexsound Proofs.C10_text.
+From Ahb Require Import Model.Prelude Model.Grammar Gen.Gen_grammar Model.Lex Gen.Gen_timecond Model.Resolve Proofs.C01_parse Proofs.C10_resolve Proofs.C01_lexprint Proofs.C01_print Proofs.C02_lexsound Proofs.C10_text Proofs.C10_text_tc.
 
 Theorem C10_expand_is_substitution : forall p e, all_known p e -> expand p e = Ok (subst p e).
 Proof. exact expand_is_substitution. Qed.
@@ -42,3 +42,11 @@ Theorem C10_textual_substitution : forall p ptext l trail its e,
   exists t', expand p e = Ok t' /\ parse_cond (subst_text ptext l trail) = Ok (flat t').
 Proof. exact resolver_is_textual_substitution. Qed.
 Print Assumptions C10_textual_substitution.
+
+(* the same for time conditions, with the replacement texts of the regenerated table ([UB1] -> [932], [UB2] -> [934], [UB3] -> "(" text ")");
+   every time condition the lexer can produce is known to the table, so there is no side condition *)
+Theorem C10_textual_time_conditions : forall l trail its e, Forall ok_pair l -> all_ws trail = true ->
+  group (map (fun p => tok_of (snd p)) l) = Some its -> Rc its e ->
+  exists t', expand_tc e = Ok t' /\ parse_cond (tc_text l trail) = Ok (flat t').
+Proof. exact resolver_is_textual_tc_substitution_closed. Qed.
+Print Assumptions C10_textual_time_conditions.
